@@ -21,7 +21,7 @@ ASSUMPTIONS = ["the re-evaluation uses the same engine, so only export defects (
 LEVEL_TEXT = "Every exported ground program / DIMACS file produced from the workload is validated against its own source by re-evaluation / model comparison."
 LEVEL_NOTE = "Known export defects are keyed by a predicate on the exported text (see known_findings.json)."
 TECHNIQUE = "runtime translation validation of exported ground programs (re-parse and re-evaluate; DIMACS model comparison)"
-BUDGET = {"quick": 360, "thorough": 8000}
+BUDGET = {"quick": 360, "thorough": 6000}
 TIME_BUDGET = {"quick": 220, "thorough": 3300}
 CASE_TIMEOUT = 60
 WATCHDOG_FRACTION = 0.04
